@@ -435,8 +435,10 @@ def threadsafe_async_cache(
                         # Wake up any waiting tasks
                         event.set()
                         # Allow garbage collection and/or another loop
-                        # to take over caching if this failed
-                        del events[key]
+                        # to take over caching if this failed, unless
+                        # another loop already took over from this one
+                        if events.get(key, (None, None))[1] is event:
+                            del events[key]
                 return result
 
             # Need to wait for another task, possibly across threads
